@@ -299,6 +299,15 @@ pub fn build_runtime() -> Runtime<roto::NoCtx> {
         fn out_String(v: RotoString) {
             log_with(|| Ev::Out(V::Str(v.to_string())));
         }
+        fn out_IpAddr(v: std::net::IpAddr) {
+            log_with(|| Ev::Out(V::Str(format!("ip:{v}"))));
+        }
+        fn out_Prefix(v: inetnum::addr::Prefix) {
+            log_with(|| Ev::Out(V::Str(format!("prefix:{v}"))));
+        }
+        fn out_Asn(v: inetnum::asn::Asn) {
+            log_with(|| Ev::Out(V::Str(format!("asn:{}", v.into_u32()))));
+        }
         fn out_unit() {
             log_with(|| Ev::Out(V::Unit));
         }
